@@ -424,6 +424,12 @@ func applyLockRequests(wvs *worldVirtualState, reqs []LockRequest) {
 			wvs.setLocker(id, wvs)
 		}
 	}
+
+	// World read lock reads the world as of all earlier transactions, so
+	// later transactions must not change it before this one commits.
+	if wvs.worldLock == AccountReadLock {
+		wvs.setLocker(WorldIDStr, wvs)
+	}
 }
 
 func (wvs *worldVirtualState) Commit() {
